@@ -870,9 +870,10 @@ const (
 //     with a run of N (= ConsecutiveAbnormalities; the code needs N+1) the node may be abnormal;
 //   - once possibly abnormal it stays so (hysteresis) until it certainly returns to ok: more than ConsecutiveNormalities rounds
 //     in a row certainly not above the threshold, or the balancer itself brought it back under the threshold and went on to the
-//     next candidate pod (the stop-by-usage path resets the detector). Then a new run of N is required.
-// Resets that the harness cannot be sure of (underused-node reset, timeout expiry, the extra normal mark after an eviction round)
-// only make koordinator more conservative than the model.
+//     next candidate pod (the stop-by-usage path resets the detector), or it was certainly underused in a round in which the
+//     balancer certainly got as far as declaring the underused nodes normal. Then a new run of N is required.
+// Resets that the harness cannot be sure of (underused-node reset when it is not certain that the pool had an abnormal node,
+// timeout expiry, the extra normal mark after an eviction round) only make koordinator more conservative than the model.
 type c18Run struct {
 	N, M       int
 	anom       bool // possibly abnormal
@@ -932,7 +933,7 @@ func (r *c18Run) failure() (string, string) {
 	case !r.everWindow:
 		return "anomaly:abnormal-rounds-not-consecutive", "the node was never above the threshold in the required number of measured rounds in a row: " + detail
 	}
-	return "anomaly:no-new-run-after-return-to-normal", "the node had returned to normal (pods evicted until it was back under the threshold, or enough normal rounds) and has not been above the threshold for the required consecutive rounds since: " + detail
+	return "anomaly:no-new-run-after-return-to-normal", "the node had returned to normal (pods evicted until it was back under the threshold, measured as underused while the balancer was handling an abnormal node, or enough normal rounds) and has not been above the threshold for the required consecutive rounds since: " + detail
 }
 
 // order of the clauses of one level's justification (a later failing clause means the earlier ones held)
